@@ -29,7 +29,11 @@ REQ = ("From Verif Require Import Base.I64 C04.Model Core.Syntax Core.Dynamic Co
 
 
 def eval_model(cases):
-    res = vlib.coq_eval(REQ, "fcase", "c02_case", [c.coq() for c in cases], shard=max(8, (len(cases) + 15) // 16), tag="c02")
+    return eval_model_terms([c.coq() for c in cases])
+
+
+def eval_model_terms(terms):
+    res = vlib.coq_eval(REQ, "fcase", "c02_case", terms, shard=max(8, (len(terms) + 15) // 16), tag="c02")
     out = []
     for r in res:
         chk_ok, kind, build, flags = r
@@ -251,7 +255,8 @@ def run(chk):
                 corr_bad.append({"case": c01.describe(c), "tie": "lowering verdict", "real": "ok", "model": "lowering error"})
             continue
         if not gen_ok:
-            fails.append({"case": c01.describe(c), "accepted_by": "real checker", "stage": "code generation", "actual": r["gen"],
+            fails.append({"case": c01.describe(c), "coq_case": c.coq(), "program": c01.batch_source([("t0", c)]),
+                          "accepted_by": "real checker", "stage": "code generation", "actual": r["gen"],
                           "classes": cls, "why": "the checker accepts this function but code generation fails (%s)" % r["gen"]})
             continue
         if cls:     # accepted, generates, but in an unlisted class: it must still build — let rustc judge
@@ -294,7 +299,8 @@ def run(chk):
                     bad = fn_of_error_lines(msg, os.path.join(d, "out_" + stem, "src", "main.rs"))
                     culprits = [(n, i) for n, i in members if n in bad] or members[:3]
                     for n, i in culprits[:10]:
-                        fails.append({"case": c01.describe(cases[i], n), "accepted_by": "real checker", "stage": "rustc",
+                        fails.append({"case": c01.describe(cases[i], n), "coq_case": cases[i].coq(), "program": c01.batch_source([("t0", cases[i])]),
+                                      "accepted_by": "real checker", "stage": "rustc",
                                       "classes": classes_of(model[i]) if model else [],
                                       "actual": "\n".join(b for b in re.split(r"\n(?=error|warning)", msg) if b.startswith("error"))[:2500],
                                       "why": "the checker accepts this function, code generation succeeds, rustc rejects the generated Rust"})
@@ -343,6 +349,16 @@ def run(chk):
 
 def replay(path):
     data = json.load(open(path))
+    binary = vlib.build_harness("debug")
     for v in data["violations"]:
-        print(json.dumps(v["detail"], indent=1)[:6000])
+        d = v["detail"]
+        if "program" in d:
+            print("== case\n" + d.get("case", ""))
+            print(json.dumps(c01.replay_one(binary, d["program"], None, tag="c02r"), indent=1, default=str))
+            if d.get("coq_case") and vlib.coq_build(["C02/Model.vo"])[0]:
+                m = eval_model_terms([d["coq_case"]])[0]
+                print("model:", json.dumps(m), "classes:", classes_of(m))
+            print("recorded:", d.get("stage"), (d.get("actual") or "")[:1500])
+        else:
+            print(json.dumps(d, indent=1)[:6000])
     return 0
